@@ -305,7 +305,7 @@ class C13(Scenario):
     design_ref = "DESIGN.md 3.2, 4/C13"
     budget = {"quick": 20, "thorough": 420, "minimise": 40}
     rule = ("case = sequential API call sequence from the valid domain over <=3 watch specs (equal watches, filters as part of identity) and <=3 handlers, with an emitter "
-            "construction/start failure injected at one or two of the emitter constructions the sequence performs, replacements of an emitter that has stopped itself (operation 'end') included (every construction position is hit in turn across run "
+            "construction/start failure injected at one or two of the emitter constructions the sequence performs, replacements of an emitter that has stopped itself (operation 'end') included, and in 15% of the sequences that call start() after scheduling a failure of the k-th emitter inside start() (the other watches keep their emitters) (every construction position is hit in turn across run "
             "indices), checked after every call against a reference map; distinct = distinct call-sequence+fault digests; non-trivial = a fault fired or a pre-emption was taken")
     level_text = ("Reference-model refinement under fault enumeration: after every call the emitters reported equal the model's watch set (one per key, alive iff running) and a unique "
                   "marker queued through each emitter reaches exactly the model's handler set; a schedule() that raised changes nothing.")
@@ -392,7 +392,13 @@ class C13(Scenario):
             if variant == 3 and len(construct_at) > 1:
                 faults[str((pos + 1) % len(construct_at))] = frng.choice(["ctor", "start"])
         sched = draw_sched(cfg, line=True, pct_k=400, step_cap=150_000, horizon=600, pct_share=0.2)
-        return {"specs": specs, "handlers": nh, "ops": ops, "fault_positions": faults, "scripts": {}, "hscripts": [], "sched": sched}
+        case = {"specs": specs, "handlers": nh, "ops": ops, "fault_positions": faults, "scripts": {}, "hscripts": [], "sched": sched}
+        srng = random.Random(f"{seed}:startfault")
+        if ["start"] in ops and ops.index(["start"]) > 0 and srng.random() < 0.15:
+            # start() itself fails: the k-th emitter cannot be started.  About the failing watch the property says nothing;
+            # every other scheduled watch keeps its emitter and can be unscheduled
+            case["start_fault"] = srng.randrange(3)
+        return case
 
     def shrink(self, case):
         for cand in drop_each(case["ops"]):
@@ -507,6 +513,32 @@ class C13(Scenario):
                     if check(f"op {i} {op}"):
                         markers(f"op {i} {op}")
                     continue
+                if kind == "start" and not running and case.get("start_fault") is not None and obs.emitters:
+                    ems = sorted(obs.emitters, key=lambda e: e._idx)
+                    victim = ems[case["start_fault"] % len(ems)]
+                    victim._rec["fault"] = "start"
+                    vkey = ekey(victim)
+                    rec = run.do_op("A0", op)
+                    others = [k for k in sorted(model, key=repr) if k != vkey]
+
+                    def others_reported(after):
+                        keys = [ekey(e) for e in obs.emitters]
+                        bad = [k for k in others if keys.count(k) != 1]
+                        if bad:
+                            found.append(Violation("registry", "C13:failed-start:other-watch-lost-its-emitter", f"after {after} (start() failed at the emitter of {vkey}: {rec.get('exc')}): emitters {keys}, still scheduled besides the failing watch: {others}"))
+                        return not bad
+
+                    if rec.get("exc") and others_reported(f"op {i} {op}"):
+                        for k in list(others):
+                            si = next(j for j, sp in enumerate(case["specs"]) if spec_key(sp) == k)
+                            r2 = run.do_op("A0", ["unschedule", si])
+                            others.remove(k)
+                            if r2.get("exc"):
+                                found.append(Violation("api-raised", f"C13:failed-start:unschedule-raised:{r2['exc']}", f"unschedule of {k} after a start() that failed at the emitter of {vkey}: {r2.get('msg')}"))
+                                break
+                            if not others_reported(f"unschedule {k} after the failed start()"):
+                                break
+                    break
                 replacing = False
                 if kind == "schedule":
                     k = spec_key(case["specs"][op[2]])
